@@ -64,6 +64,18 @@ def make_classes_job(ctx, proto, workers, seed):
     extra = [{"exp": exps[i % 3], "buf": m} for i, m in enumerate(odd_datagrams(ctx.rng, proto))]
     if proto in ("ipfix", "netflow9"):
         extra += [{"exp": dg["exp"], "buf": mixed(proto, dg["buf"], i)} for i, dg in enumerate(job["data"]) if i % 4 == 1 and len(dg["buf"]) < 1400]
+    if proto == "sflow":
+        # several samples, the first ones whole, the last one cut: the datagram does not decode - nothing is counted, nothing
+        # is published for it (not the samples read before the error either)
+        seen = {tuple(d["buf"]) for d in job["data"]}
+        for i, dg in enumerate(list(job["data"])):
+            b = dg["buf"]
+            if len(b) > 120 and b[4:8] == [0, 0, 0, 1] and b[24:28] not in ([0, 0, 0, 0], [0, 0, 0, 1]):
+                for cut in (5, 12 + 4 * (i % 7)):
+                    c = b[:len(b) - cut]
+                    if tuple(c) not in seen:
+                        seen.add(tuple(c))
+                        extra.append({"exp": dg["exp"], "buf": c})
     data = job["data"] + extra
     ctx.rng.shuffle(data)
     job["data"] = data
